@@ -57,7 +57,8 @@ Record strace := STrace {
 
 Inductive c01case :=
 | SysCase (shards : nat) (batches : list (list dgram)) (table : list (str * pfres))
-          (flushes : list (nat * nat * list oentry)) (tr : strace)
+          (flushes : list (nat * nat * list oentry))
+          (tr : option strace)   (* None: the harness could not resolve the logs (a monitor reports why) *)
 | AggCase (c : config) (ops : list aop).
 
 (* ---------------------------------------------------------------------------------------- *)
@@ -259,7 +260,7 @@ Definition check_case (c : c01case) : bool :=
           && routed n fl
           && pairs_unique (map (λ x, x.1) fl)
           && series_unique_per_flush fl
-          && forallb id (check_trace n dps fl tr)
+          && forallb id (from_option (check_trace n dps fl) [] tr)
       | None => false
       end
   | AggCase cfg ops => run_agg cfg empty_map ops
@@ -278,7 +279,7 @@ Definition explain_case (c : c01case) : explain :=
       | Some dps =>
           let '(m_in, m_out) := sys_model dps fl in
           XSys (cdump m_in) (cdump m_out) (routed n fl) (pairs_unique (map (λ x, x.1) fl)) (series_unique_per_flush fl)
-               (check_trace n dps fl tr)
+               (from_option (check_trace n dps fl) [] tr)
       | None => XSysPanic
       end
   | AggCase cfg ops => XAgg (trace_agg cfg empty_map ops)
